@@ -464,6 +464,33 @@ class SRatio:
             o = float(o)
         return o / s._float()
 
+    def __pow__(s, o, mod=None):
+        if mod is None and isinstance(o, (int, float)) and not isinstance(o, bool) and o == 1:
+            return s            # x ** 1 and x ** 1.0 are exact
+        if isinstance(o, (SInt, SRatio)):
+            o = float(o)
+        return s._float() ** o
+
+    def __rpow__(s, o):
+        if isinstance(o, (SInt, SRatio)):
+            o = float(o)
+        return o ** s._float()
+
+    def _conc2(s, o, f, rev=False):
+        if isinstance(o, SInt):
+            o = o.__index__()
+        elif isinstance(o, SRatio):
+            o = o._float()
+        me = s._float()
+        return f(o, me) if rev else f(me, o)
+
+    def __floordiv__(s, o): return s._conc2(o, lambda a, b: a // b)
+    def __rfloordiv__(s, o): return s._conc2(o, lambda a, b: a // b, True)
+    def __mod__(s, o): return s._conc2(o, lambda a, b: a % b)
+    def __rmod__(s, o): return s._conc2(o, lambda a, b: a % b, True)
+    def __divmod__(s, o): return s._conc2(o, divmod)
+    def __rdivmod__(s, o): return s._conc2(o, divmod, True)
+
     def __neg__(s): return SRatio(-s.n, s.d)
     def __pos__(s): return s
 
